@@ -209,6 +209,15 @@ def compare(chk, v, tname, W, R, where, vn):
     $obj paths; writer sizes and bounds are evaluated in the heap the reader builds (so a field the
     constructor derives, e.g. base = 1 << basebit, compares equal to what the reader computes)."""
     canon, alias, heap = object_model(R["eff"], R["result"])
+    # a reader that reads blocks into a private staging buffer (an allocation that is not part of the object it builds) and distributes
+    # them afterwards: the comparison of transfers does not see where the bytes end up.  Not modelled (the writer-side counterpart
+    # is): undecided, never a violation.
+    for o in flat_ops(R["ops"]):
+        sr_ = ioseq._staging_root(o["ptr"]) if o["op"] == "bin" and o.get("dir") == "r" else None
+        if sr_ is not None and sr_[0] not in canon:
+            from sa.pipeline import AnalysisBroken
+            raise AnalysisBroken("%s: the reader reads into a private staging buffer at line %s and distributes the bytes afterwards; "
+                                 "staged reads are not modelled" % (tname, o["l"]))
     rsecs = [o for o in flat_ops(R["ops"]) if o["op"] == "text"]
     secidx = {o["id"]: i for i, o in enumerate(rsecs)}
 
@@ -726,6 +735,25 @@ def fields_read(v, eff, roots):
 def record_closure(v, rec):
     from rules.c17 import type_closure
     return type_closure(v, rec)[0]
+
+
+def check_mirror(chk, v, rule, only_size=False):
+    """R1 for every writer/reader pair, reported under `rule` (C18 re-evaluates it: a reader that requests fewer bytes than the
+    writer wrote accepts an input truncated inside the part it never asks for)"""
+    vn = v.name
+    ioseq.find_primitives(v)
+    for (tname, transport), pr in sorted(api.io_pairs(v).items()):
+        W = view(v, pr["w"], deep=False)
+        R = view(v, pr["r"], deep=True)
+        where = "%s | %s" % (pr["w"].where, pr["r"].where)
+        if not W["ops"] or not R["ops"]:
+            chk.broken("no ops extracted for %s/%s" % (tname, transport))
+        problems, nt = compare(chk, v, tname, W, R, where, vn)
+        key = "%s/%s: the reader consumes exactly what the writer produced" % (tname, transport)
+        if problems:
+            chk.refuted(rule, key, where=where, detail="; ".join(problems)[:900], variant=vn)
+        else:
+            chk.proved(rule, key, where=where, detail="%d ops compared" % sum(1 for _ in flat_ops(W["ops"])), variant=vn)
 
 
 def run(chk):
